@@ -37,6 +37,7 @@ fn main() {
         "readonly" => readonly(),
         "determ" => determ(),
         "bulk" => bulk(),
+        "dbsync" => dbsync(),
         "stats" => stats(),
         _ => { eprintln!("unknown scenario"); 2 }
     };
@@ -568,5 +569,54 @@ fn bulk() -> i32 {
         Ok(())
     }));
     let _ = std::fs::remove_dir_all(&dir);
+    match res { Ok(Ok(())) => { println!("OK"); 0 } Ok(Err(e)) => { println!("MISMATCH: {e}"); 1 } Err(_) => { println!("MISMATCH: panicked"); 1 } }
+}
+
+/// database-level sync_all / sync_data over maps of every key type: a copy of the directory taken right after must open to the same contents
+fn dbsync() -> i32 {
+    use abyssiniandb::DbMapKeyType;
+    let dir = tmpdir("dbsync"); let snap = tmpdir("dbsyncsnap");
+    let params = FileDbParams { buckets_size: HashBucketsParam::BucketsSize(16), ..Default::default() };
+    let res = std::panic::catch_unwind(std::panic::AssertUnwindSafe(|| -> Result<(), String> {
+        let db = abyssiniandb::open_file(&dir).unwrap();
+        let mut ms = [db.db_map_string_with_params("s1", params.clone()).unwrap(), db.db_map_string_with_params("s2", params.clone()).unwrap()];
+        let mut mb = [db.db_map_bytes_with_params("b1", params.clone()).unwrap(), db.db_map_bytes_with_params("b2", params.clone()).unwrap()];
+        let mut mi = [db.db_map_i64_with_params("i1", params.clone()).unwrap(), db.db_map_i64_with_params("i2", params.clone()).unwrap()];
+        let mut mu = [db.db_map_u64_with_params("u1", params.clone()).unwrap(), db.db_map_u64_with_params("u2", params.clone()).unwrap()];
+        let mut mv = [db.db_map_vu64_with_params("v1", params.clone()).unwrap(), db.db_map_vu64_with_params("v2", params.clone()).unwrap()];
+        for round in 0..4u64 {
+            for j in 0..2usize {
+                for i in 0..6u64 {
+                    let v = vec![(round * 16 + i) as u8; (3 + i * 9 + round * 40) as usize];
+                    ms[j].put(&format!("k{i}"), &v).unwrap(); mb[j].put(&format!("k{i}").as_bytes().to_vec()[..], &v).unwrap();
+                    mi[j].put(&(i as i64 - 3), &v).unwrap(); mu[j].put(&(i << 50), &v).unwrap(); mv[j].put(&(i << 50), &v).unwrap();
+                }
+                if round > 0 { ms[j].delete("k1").unwrap(); mb[j].delete(&b"k1"[..]).unwrap(); mi[j].delete(&-2i64).unwrap(); mu[j].delete(&(1u64 << 50)).unwrap(); mv[j].delete(&(1u64 << 50)).unwrap(); }
+            }
+            if round % 2 == 0 { db.sync_all().unwrap(); } else { db.sync_data().unwrap(); }
+            copy_dir(&dir, &snap);
+            let db2 = abyssiniandb::open_file(&snap).unwrap();
+            for j in 0..2usize {
+                let n = ["1", "2"][j];
+                let mut s2 = db2.db_map_string_with_params(&format!("s{n}"), params.clone()).unwrap();
+                let mut b2 = db2.db_map_bytes_with_params(&format!("b{n}"), params.clone()).unwrap();
+                let mut i2 = db2.db_map_i64_with_params(&format!("i{n}"), params.clone()).unwrap();
+                let mut u2 = db2.db_map_u64_with_params(&format!("u{n}"), params.clone()).unwrap();
+                let mut v2 = db2.db_map_vu64_with_params(&format!("v{n}"), params.clone()).unwrap();
+                let a: Vec<(Vec<u8>, Vec<u8>)> = ms[j].iter().map(|(k, v)| (k.as_bytes().to_vec(), v)).collect(); let b: Vec<(Vec<u8>, Vec<u8>)> = s2.iter().map(|(k, v)| (k.as_bytes().to_vec(), v)).collect();
+                if a != b || s2.len().unwrap() != ms[j].len().unwrap() { return Err(format!("round {round}: snapshot of string map s{n} differs after database-level sync")); }
+                let a: Vec<(Vec<u8>, Vec<u8>)> = mb[j].iter().map(|(k, v)| (k.as_bytes().to_vec(), v)).collect(); let b: Vec<(Vec<u8>, Vec<u8>)> = b2.iter().map(|(k, v)| (k.as_bytes().to_vec(), v)).collect();
+                if a != b { return Err(format!("round {round}: snapshot of bytes map b{n} differs after database-level sync")); }
+                let a: Vec<(Vec<u8>, Vec<u8>)> = mi[j].iter().map(|(k, v)| (k.as_bytes().to_vec(), v)).collect(); let b: Vec<(Vec<u8>, Vec<u8>)> = i2.iter().map(|(k, v)| (k.as_bytes().to_vec(), v)).collect();
+                if a != b { return Err(format!("round {round}: snapshot of i64 map i{n} differs after database-level sync")); }
+                let a: Vec<(Vec<u8>, Vec<u8>)> = mu[j].iter().map(|(k, v)| (k.as_bytes().to_vec(), v)).collect(); let b: Vec<(Vec<u8>, Vec<u8>)> = u2.iter().map(|(k, v)| (k.as_bytes().to_vec(), v)).collect();
+                if a != b { return Err(format!("round {round}: snapshot of u64 map u{n} differs after database-level sync")); }
+                let a: Vec<(Vec<u8>, Vec<u8>)> = mv[j].iter().map(|(k, v)| (k.as_bytes().to_vec(), v)).collect(); let b: Vec<(Vec<u8>, Vec<u8>)> = v2.iter().map(|(k, v)| (k.as_bytes().to_vec(), v)).collect();
+                if a != b { return Err(format!("round {round}: snapshot of vu64 map v{n} differs after database-level sync")); }
+            }
+        }
+        Ok(())
+    }));
+    let _ = std::fs::remove_dir_all(&dir); let _ = std::fs::remove_dir_all(&snap);
     match res { Ok(Ok(())) => { println!("OK"); 0 } Ok(Err(e)) => { println!("MISMATCH: {e}"); 1 } Err(_) => { println!("MISMATCH: panicked"); 1 } }
 }
